@@ -1023,6 +1023,17 @@ def rule_exec_scope(rep: Report, repo: Repo):
     if org == ("sympy.physics.quantum", "Dagger"):
         rep.ok(R, "algorithm_parsing::series_computation exec scope binds `Dagger` to the adjoint", "sympy.physics.quantum.Dagger", loc(es[0]))
         return
+    verdict = _adjoint_function(rep, repo, R, tree, "algorithm_parsing", v.id, org, loc(es[0]), "bound to `Dagger` in the exec scope")
+    if verdict:
+        rep.ok(R, "algorithm_parsing::series_computation exec scope binds `Dagger` to the adjoint", verdict, loc(es[0]))
+
+
+def _adjoint_function(rep: Report, repo: Repo, R: str, tree: ast.Module, mod: str, name: str, org, where: str, role: str):
+    """`name` in module `mod` is a package function (defined there, or imported from a package module): every returning path
+    must denote the adjoint.  A plain transpose is accepted only under a test that guarantees real VALUES (a real numeric
+    dtype); `np.isrealobj` does not (object arrays holding complex numbers or expressions count as real).
+    -> description if every path is the adjoint, None after reporting a violation; AnalysisError if not understood."""
+    from .sem import canon, outcomes
     fn = None
     if org is not None and org[0].startswith("pymablock."):
         modname = org[0].split(".", 1)[1]
@@ -1030,20 +1041,25 @@ def rule_exec_scope(rep: Report, repo: Repo):
             fn = next((n for n in repo.trees[modname].body if isinstance(n, ast.FunctionDef) and n.name == org[1]), None)
             fmod = modname
     else:
-        fn = next((n for n in tree.body if isinstance(n, ast.FunctionDef) and n.name == v.id), None)
-        fmod = "algorithm_parsing"
+        fn = next((n for n in tree.body if isinstance(n, ast.FunctionDef) and n.name == name), None)
+        fmod = mod
     if fn is None or len(fn.args.args) != 1:
-        raise AnalysisError(R, f"`Dagger` is bound to `{v.id}` whose definition was not found as a one-argument package function")
+        raise AnalysisError(R, f"`{name}` ({role}): its definition was not found as a one-argument package function")
     a = fn.args.args[0].arg
-    ADJ = {f"Dagger({a})", f"{a}.conj().T", f"{a}.H", f"{a}.getH()", f"{a}.adjoint()", f"np.conj({a}).T", f"np.conj({a}.T)", f"{a}.conj().transpose()",
-           f"np.conjugate({a}).T", f"{a}.T.conj()"}
+    # the function may delegate to sympy's Dagger under another name
+    sympy_names = {nm for nm in [x_.asname or x_.name for st_ in repo.trees[fmod].body if isinstance(st_, ast.ImportFrom)
+                                 and st_.module == "sympy.physics.quantum" for x_ in st_.names if x_.name == "Dagger"]}
+    ADJ = {f"{d_}({a})" for d_ in sympy_names | {"Dagger"}} | {f"{a}.conj().T", f"{a}.H", f"{a}.getH()", f"{a}.adjoint()", f"np.conj({a}).T", f"np.conj({a}.T)",
+           f"{a}.conj().transpose()", f"np.conjugate({a}).T", f"{a}.T.conj()"}
     TRANS = {f"{a}.T", f"{a}.transpose()", f"np.transpose({a})"}
+    REAL_GUARDS = (f"{a}.dtype.kind in 'fiub'", f"{a}.dtype.kind in 'fiu'", f"{a}.dtype.kind == 'f'", f"np.issubdtype({a}.dtype, np.floating)",
+                   f"np.issubdtype({a}.dtype, np.integer)")
+    NOT_REAL_GUARDS = (f"np.isrealobj({a})", f"not np.iscomplexobj({a})")
     wrong, unknown = [], []
     for o in outcomes(fn.body, None, env={}, expand=False):
         if o.kind != "return":
             continue
         e = o.value
-        # the returned object must not have been modified after it was built: resolution follows construction, not mutation
         ret_names = {n_.id for n_ in ast.walk(o.node.value) if isinstance(n_, ast.Name)} \
             if isinstance(o.node, ast.Return) and o.node.value is not None else set()
         ret_names -= {a}
@@ -1054,26 +1070,59 @@ def rule_exec_scope(rep: Report, repo: Repo):
             pure = isinstance(ev, ast.Expr) and isinstance(ev.value, ast.Call) and isinstance(ev.value.func, ast.Attribute) \
                 and ev.value.func.attr in ("conj", "conjugate", "copy", "transpose", "toarray", "tocsr", "tocsc") and not ev.value.keywords
             if not pure:
-                raise AnalysisError(R, f"{fmod}::{fn.name} (bound to `Dagger`): the returned object is modified by `{norm(ev)[:60]}` before it is "
+                raise AnalysisError(R, f"{fmod}::{fn.name} ({role}): the returned object is modified by `{norm(ev)[:60]}` before it is "
                                        "returned; the effect of that statement is not followed")
-        # storage-format conversions on top do not change the value
         while isinstance(e, ast.Call) and isinstance(e.func, ast.Attribute) and e.func.attr in ("tocsr", "tocsc", "tocoo", "copy", "asformat"):
             e = e.func.value
         t = norm(canon(e))
         if t in ADJ or norm(e) in ADJ:
             continue
         if t in TRANS or norm(e) in TRANS:
-            wrong.append((o, norm(o.value)))
+            guards = [norm(canon(c_)) for c_, p_ in o.conds if p_] + [norm(canon(ast.UnaryOp(op=ast.Not(), operand=c_))) for c_, p_ in o.conds if not p_]
+            if any(g_ in REAL_GUARDS for g_ in guards):
+                continue  # a real numeric array: the transpose is the adjoint
+            why = "a transpose without complex conjugation"
+            if any(g_ in NOT_REAL_GUARDS for g_ in guards):
+                why += " under `np.isrealobj`, which looks at the dtype only: an object array holding complex numbers or expressions passes it"
+            wrong.append((o, norm(o.value), why))
         else:
             unknown.append(norm(o.value))
-    for o, txt in wrong:
-        rep.fail(R, f"{fmod}::{fn.name} (bound to `Dagger` in the exec scope) returns `{txt}` on a path",
-                 "a transpose without complex conjugation: adjoint fills, `.adj` and the Hermitian shortcuts are wrong for complex values "
+    for o, txt, why in wrong:
+        rep.fail(R, f"{fmod}::{fn.name} ({role}) returns `{txt}` on a path",
+                 why + ": adjoint fills, `.adj` and the Hermitian shortcuts are wrong for complex values "
                  "of that type; path: " + "; ".join(f"{'' if p else 'not '}{norm(t)[:40]}" for t, p in o.conds), repo.loc(fmod, o.node))
     if unknown and not wrong:
-        raise AnalysisError(R, f"{fmod}::{fn.name} (bound to `Dagger`) returns `{unknown[0][:60]}`: not recognised as the adjoint")
-    if not wrong:
-        rep.ok(R, "algorithm_parsing::series_computation exec scope binds `Dagger` to the adjoint", f"{fmod}::{fn.name}: every path returns the adjoint", loc(es[0]))
+        raise AnalysisError(R, f"{fmod}::{fn.name} ({role}) returns `{unknown[0][:60]}`: not recognised as the adjoint")
+    return None if wrong else f"{fmod}::{fn.name}: every path returns the adjoint"
+
+
+def rule_adjoint_binding(rep: Report, repo: Repo):
+    """Every module that calls `Dagger(...)` on series values binds that name to the adjoint: sympy's Dagger, or a package function
+    every path of which denotes the adjoint (same analysis as for the exec scope)."""
+    R = "E9.adjoint_binding"
+    n = 0
+    for mod in ("series", "algorithm_parsing", "block_diagonalization", "second_quantization", "number_ordered_form", "linalg", "kpm"):
+        tree = repo.trees[mod]
+        uses = [c for c in ast.walk(tree) if isinstance(c, ast.Call) and isinstance(c.func, ast.Name) and c.func.id == "Dagger"]
+        if not uses:
+            continue
+        n += 1
+        where = repo.loc(mod, uses[0])
+        org = _import_origin(tree, "Dagger")
+        local_def = [x for x in tree.body if isinstance(x, ast.FunctionDef) and x.name == "Dagger"]
+        rebinds = [x for x in tree.body if isinstance(x, ast.Assign) and any(norm(t) == "Dagger" for t in x.targets)]
+        if rebinds:
+            raise AnalysisError(R, f"{mod}: `Dagger` is assigned at module level (`{norm(rebinds[0])[:60]}`)")
+        inst = f"{mod} `Dagger` ({len(uses)} calls) denotes the adjoint"
+        if org == ("sympy.physics.quantum", "Dagger") and not local_def:
+            rep.ok(R, inst, "sympy.physics.quantum.Dagger", where)
+            continue
+        if not local_def and org is None:
+            raise AnalysisError(R, f"{mod}: where `Dagger` comes from was not found")
+        verdict = _adjoint_function(rep, repo, R, tree, mod, "Dagger", None if local_def else org, where, f"`Dagger` of {mod}")
+        if verdict:
+            rep.ok(R, inst, verdict, where)
+    rep.floor(R, "modules calling Dagger", n, 3)
 
 
 # ---------------------------------------------------------------------------
